@@ -1,4 +1,6 @@
-# unit `listing` (C19): the REAL body of RollingLogger::get_log_files (the listing archive_file prunes from) under contract
+# unit `listing` (C19): the REAL bodies of the three directory-listing functions under contract: RollingLogger::get_log_files (the
+# listing archive_file prunes from), misc_helpers::get_files (the event directory listing) and misc_helpers::search_files (the
+# authorization-rule dumps listing)
 import os
 import re
 HERE = os.path.dirname(os.path.abspath(__file__))
@@ -23,6 +25,23 @@ ASSUMPTIONS = [
     "str::starts_with(a, p) is named centrally by the uninterpreted vxstd_pat_rel(1, a, p) (tools/vxlib.py AUTO_STD_SPECS), nothing "
     "assumed about its value: the contract's `named_after(n, &self.log_file_name)` is that same term",
     "`?` on io::Result converts the error with Error's derived From<std::io::Error> (thiserror; the error value is not looked into)",
+    # ---- misc_helpers::get_files / search_files ----
+    "get_files / search_files: the same directory model and the same ReadDir / DirEntry::path / Metadata::is_file / Vec::sort contracts as "
+    "above; fs::read_dir is called with a &Path here (E11 stubs vx_e11_read_dir_get_files / _search_files: requires pbuf_of(dir) == m.dir "
+    "- a labelled precondition checks that the function lists the directory it was given -, Ok means the remaining items are exactly "
+    "m.entries); fs::metadata (E9 stubs vx_e9_metadata_get_files / _search_files, same contract as vx_e9_metadata with the function's "
+    "own label on the precondition)",
+    "misc_helpers::get_file_name is REAL code here (not a stub), proved to return file_name_text(path) = the text of the path's last "
+    "component when there is one and it is valid Unicode, else the literal \"InvalidPath\"; assumed for it: Path::file_name returns "
+    "Some exactly when the path has a final component (uninterpreted path_file_name(path), nothing assumed about its value; in "
+    "particular not that it is the DirEntry's name), OsStr::to_str is Some(text) exactly when the OsStr is valid Unicode (std "
+    "documentation); Option::unwrap_or / str::to_string: vstd's specifications",
+    "regex::bytes::Regex::new(pattern): may fail (Err, converted by `?` with Error's derived From<regex::Error>; the error value is not "
+    "looked into); when Ok the compiled regex is the one of that pattern text (uninterpreted regex_pattern(re) == pattern@)",
+    "regex::bytes::Regex::is_match(re, haystack) is named by the uninterpreted regex_matches(regex_pattern(re), haystack@) (nothing "
+    "assumed about its value, only that it is a function of the pattern text and the haystack bytes)",
+    "String::as_bytes returns the UTF-8 encoding of the text (vstd::utf8::encode_utf8(s@); same assumption as units telemetry and sign)",
+    "`&PathBuf` passed where `&Path` is expected goes through PathBuf::deref (contract above: pbuf_of(r) == *p)",
 ]
 
 MODEL = "Tracked(m): Tracked<&DirModel>"
@@ -31,6 +50,60 @@ SORT_CONTRACT = """
         ensures final(v)@.to_multiset() == old(v)@.to_multiset(),
                 sorted_by_path(final(v)@),
 """
+
+
+def listing_anchors(sf, path):
+    """anchors and local names of a `for entry in fs::read_dir(..)? { .. metadata .. push .. } sort; Ok(v)` function, all computed from
+    the syn index of the function (robust against renamed locals)"""
+    from vxlib import Undecided
+    it = sf.item(path, "fn")
+    nm = it["name"]
+
+    def calls(callee, kind):
+        return [c for c in it["calls"] if c["kind"] == kind and c["callee"].replace(" ", "") == callee]
+
+    if len(it["loops"]) != 1 or it["loops"][0]["kind"] != "for":
+        raise Undecided("%s: expected exactly one `for` loop" % nm)
+    L = it["loops"][0]
+    rds = [c for c in calls("fs::read_dir", "path") + calls("std::fs::read_dir", "path") if L["expr"][0] <= c["span"][0] and c["span"][1] <= L["expr"][1]]
+    if len(rds) != 1 or len(rds[0]["args"]) != 1:
+        raise Undecided("%s: the loop does not iterate over one fs::read_dir(..) call" % nm)
+    rd = rds[0]
+    mds = calls("fs::metadata", "path") + calls("std::fs::metadata", "path")
+    if len(mds) != 1 or len(mds[0]["args"]) != 1:
+        raise Undecided("%s: expected exactly one fs::metadata(..) call" % nm)
+    md = mds[0]
+    # the vector that is filled and returned: the `let` initialised with Vec::new()
+    vecs = [l for l in it["lets"] if sf.s(*l["init"]).replace(" ", "") == "Vec::new()"]
+    if len(vecs) != 1:
+        raise Undecided("%s: expected exactly one `let .. = Vec::new()`" % nm)
+    mv = re.match(r"\s*(?:mut\s+)?([A-Za-z_]\w*)", sf.s(*vecs[0]["pat"]))
+    if not mv:
+        raise Undecided("%s: cannot read the name of the result vector" % nm)
+    V = mv.group(1)
+    body_blocks = [b for b in it["blocks"] if tuple(b["span"]) == tuple(L["body"])]
+    fn_blocks = [b for b in it["blocks"] if tuple(b["span"]) == tuple(it["body"])]
+    if len(body_blocks) != 1 or not body_blocks[0]["stmts"] or len(fn_blocks) != 1 or not fn_blocks[0]["stmts"]:
+        raise Undecided("%s: block structure not found in the index" % nm)
+    first_in_loop = sf.s(*body_blocks[0]["stmts"][0])
+    fstm = [tuple(x) for x in fn_blocks[0]["stmts"]]
+    li = [i for i, x in enumerate(fstm) if x[0] <= L["span"][0] and L["span"][1] <= x[1]]
+    if len(li) != 1 or li[0] + 1 >= len(fstm):
+        raise Undecided("%s: the loop is not a statement of the function block followed by another statement" % nm)
+    after_loop = sf.s(*fstm[li[0] + 1])     # the statement that follows the loop (the sort)
+    last_of_fn = sf.s(*fstm[-1])            # the tail expression
+    loop_header = sf.s(L["for_token"][0], L["expr"][1])
+    sorts = [c for c in calls("sort", "method") if sf.s(*c["receiver"]).strip() == V]
+    return dict(it=it, L=L, rd=rd, md=md, V=V, first_in_loop=first_in_loop, after_loop=after_loop, last_of_fn=last_of_fn,
+                loop_header=loop_header, sorts=sorts, tail_is_next=(li[0] + 1 == len(fstm) - 1))
+
+
+def tail_hints(A, after_loop_text, before_tail_text):
+    """ghost text right after the loop and right before the tail expression"""
+    if A["tail_is_next"]:
+        return [(A["last_of_fn"], -1, "before", after_loop_text + "\n" + before_tail_text)]
+    return [(A["after_loop"], 0, "before", after_loop_text), (A["last_of_fn"], -1, "before", before_tail_text)]
+
 
 
 def build(u):
@@ -48,44 +121,9 @@ def build(u):
     with u.mod("result", uses="use super::error::Error;"):
         u.raw("pub type Result<T> = core::result::Result<T, Error>;", names=("Result",))
 
-    # ---- anchors and local names, all computed from the syn index of the function (robust against renamed locals) ----
-    it = rl.item("RollingLogger::get_log_files", "fn")
-
-    def calls(callee, kind):
-        return [c for c in it["calls"] if c["kind"] == kind and c["callee"].replace(" ", "") == callee]
-
-    if len(it["loops"]) != 1 or it["loops"][0]["kind"] != "for":
-        raise Undecided("get_log_files: expected exactly one `for` loop")
-    L = it["loops"][0]
-    rds = [c for c in calls("fs::read_dir", "path") + calls("std::fs::read_dir", "path") if L["expr"][0] <= c["span"][0] and c["span"][1] <= L["expr"][1]]
-    if len(rds) != 1 or len(rds[0]["args"]) != 1:
-        raise Undecided("get_log_files: the loop does not iterate over one fs::read_dir(..) call")
-    rd = rds[0]
-    mds = calls("fs::metadata", "path") + calls("std::fs::metadata", "path")
-    if len(mds) != 1 or len(mds[0]["args"]) != 1:
-        raise Undecided("get_log_files: expected exactly one fs::metadata(..) call")
-    md = mds[0]
-    # the vector that is filled and returned: the `let` initialised with Vec::new()
-    vecs = [l for l in it["lets"] if rl.s(*l["init"]).replace(" ", "") == "Vec::new()"]
-    if len(vecs) != 1:
-        raise Undecided("get_log_files: expected exactly one `let .. = Vec::new()`")
-    mv = re.match(r"\s*(?:mut\s+)?([A-Za-z_]\w*)", rl.s(*vecs[0]["pat"]))
-    if not mv:
-        raise Undecided("get_log_files: cannot read the name of the result vector")
-    V = mv.group(1)
-    body_blocks = [b for b in it["blocks"] if tuple(b["span"]) == tuple(L["body"])]
-    fn_blocks = [b for b in it["blocks"] if tuple(b["span"]) == tuple(it["body"])]
-    if len(body_blocks) != 1 or not body_blocks[0]["stmts"] or len(fn_blocks) != 1 or not fn_blocks[0]["stmts"]:
-        raise Undecided("get_log_files: block structure not found in the index")
-    first_in_loop = rl.s(*body_blocks[0]["stmts"][0])
-    fstm = [tuple(x) for x in fn_blocks[0]["stmts"]]
-    li = [i for i, x in enumerate(fstm) if x[0] <= L["span"][0] and L["span"][1] <= x[1]]
-    if len(li) != 1 or li[0] + 1 >= len(fstm):
-        raise Undecided("get_log_files: the loop is not a statement of the function block followed by another statement")
-    after_loop = rl.s(*fstm[li[0] + 1])     # the statement that follows the loop (the sort)
-    last_of_fn = rl.s(*fstm[-1])            # the tail expression
-    loop_header = rl.s(L["for_token"][0], L["expr"][1])
-    sorts = [c for c in calls("sort", "method") if rl.s(*c["receiver"]).strip() == V]
+    A = listing_anchors(rl, "RollingLogger::get_log_files")
+    rd, md, V, sorts = A["rd"], A["md"], A["V"], A["sorts"]
+    loop_header, first_in_loop = A["loop_header"], A["first_in_loop"]
 
     K = "(m.entries.len() - rd_remaining(&vx_it).len())"
     NAMES = "&self.log_file_name, &self.log_file_extension"
@@ -107,10 +145,7 @@ def build(u):
 
     H_AFTER_LOOP = "let ghost vx_lf1 = %(V)s@;\nproof { assert(m.entries.take(m.entries.len() as int) =~= m.entries); }" % dict(V=V)
     H_BEFORE_TAIL = "proof { lemma_permutation_keeps_clauses(vx_lf1, %(V)s@, m.entries, %(N)s); }" % dict(V=V, N=NAMES)
-    if li[0] + 1 == len(fstm) - 1:
-        TAIL_HINTS = [(last_of_fn, -1, "before", H_AFTER_LOOP + "\n" + H_BEFORE_TAIL)]
-    else:
-        TAIL_HINTS = [(after_loop, 0, "before", H_AFTER_LOOP), (last_of_fn, -1, "before", H_BEFORE_TAIL)]
+    TAIL_HINTS = tail_hints(A, H_AFTER_LOOP, H_BEFORE_TAIL)
 
     with u.mod("logger"):
         with u.mod("rolling_logger", auto_uses=rl):
@@ -149,3 +184,89 @@ def build(u):
                 r is Ok ==> each_once(r->Ok_0@, m.entries, &self.log_file_name, &self.log_file_extension),  // @C19.get_log_files.each_once
                 r is Ok ==> sorted_by_path(r->Ok_0@),  // @C19.get_log_files.sorted
 """)
+
+    # ==== misc_helpers::get_files / misc_helpers::search_files: same loop shape, the selection is the parameter ====
+    mh = u.src("proxy_agent_shared/src/misc_helpers.rs")
+
+    def listing_fn(path, sel, every_label, only_label, extra_requires="", extra_invariants=""):
+        """take `path` (fn(dir: &Path, ..) -> Result<Vec<PathBuf>>) under the contract "when Ok: complete / sound / each once / sorted"
+        for the selection `sel` (text of a `Selection` value over the function's parameters)"""
+        B = listing_anchors(mh, path)
+        fn = B["it"]["name"]
+        W = B["V"]
+        brd, bmd = B["rd"], B["md"]
+        if not B["it"]["params"]:
+            raise Undecided("%s: no parameter" % fn)
+        DIR = B["it"]["params"][0]["name"]
+        D = dict(K=K, V=W, S=sel, F=fn, EL=every_label, OL=only_label, XI=extra_invariants)
+        fe9 = [
+            ((brd["span"][0], brd["span"][1]), None, "dir: &std::path::Path, " + MODEL, mh.s(*brd["args"][0]) + ", Tracked(m)",
+             "std::io::Result<VxReadDir>", """
+        requires pbuf_of(dir) == m.dir,  // @C19.%(F)s.reads_the_given_directory
+        ensures r is Ok ==> rd_remaining(&r->Ok_0) == m.entries,
+""" % D, dict(name="vx_e11_read_dir_%s" % fn, body="std::fs::read_dir(dir)", wrap="vx_wrap_read_dir")),
+            ((bmd["span"][0], bmd["span"][1]), None, "path: &std::path::PathBuf, Ghost(ent): Ghost<DirEnt>", mh.s(*bmd["args"][0]) + ", Ghost(vx_cur)",
+             "std::io::Result<std::fs::Metadata>", """
+        requires *path == ent.path,  // @C19.%(F)s.metadata_of_the_entry_itself
+        ensures r is Ok ==> meta_is_file(r->Ok_0) == ent.is_file,
+""" % D, dict(name="vx_e9_metadata_%s" % fn, body="std::fs::metadata(path)")),
+        ]
+        for c in B["sorts"]:
+            fe9.append(((c["span"][0], c["span"][1]), None, "v: &mut Vec<std::path::PathBuf>", "&mut " + W, "", SORT_CONTRACT,
+                        dict(name="vx_e9_sort_paths", body="v.sort()")))
+        after_loop = "let ghost vx_lf1 = %(V)s@;\nproof { assert(m.entries.take(m.entries.len() as int) =~= m.entries); }" % D
+        before_tail = "proof { lemma_permutation_keeps_lists(vx_lf1, %(V)s@, m.entries, %(S)s); }" % D
+        u.take_fn(mh, path, ghost=MODEL,
+                  desugar_for={0: "vx_it"},
+                  e9=fe9,
+                  loops={0: """
+                invariant
+                    rd_remaining(&vx_it).len() <= m.entries.len(),
+                    rd_remaining(&vx_it) == m.entries.subrange(%(K)s, m.entries.len() as int),%(XI)s
+                    lists_every_upto(%(V)s@, m.entries, %(K)s, %(S)s),  // @C19.%(F)s.%(EL)s
+                    lists_only_upto(%(V)s@, m.entries, %(K)s, %(S)s),  // @C19.%(F)s.%(OL)s
+                    %(V)s@ == paths_of(m.entries.take(%(K)s), %(S)s),  // @C19.%(F)s.each_once
+                ensures
+                    rd_remaining(&vx_it).len() == 0,
+                decreases rd_remaining(&vx_it).len(),
+""" % D},
+                  loop_ends={0: "proof { lemma_push_keeps(vx_lf0, vx_cur.path); }"},
+                  hints=[
+                      (B["loop_header"], None, "before", "proof { assert(m.entries.subrange(0, m.entries.len() as int) =~= m.entries); assert(m.entries.take(0) =~= Seq::<DirEnt>::empty()); }"),
+                      (B["first_in_loop"], None, "before", """
+                let ghost vx_k = %(K)s - 1;
+                let ghost vx_cur = m.entries[vx_k];
+                let ghost vx_lf0 = %(V)s@;
+                proof {
+                    assert(rd_remaining(&vx_it) =~= m.entries.subrange(vx_k + 1, m.entries.len() as int));
+                    lemma_paths_of_step(m.entries, vx_k, %(S)s);
+                }""" % D),
+                  ] + tail_hints(B, after_loop, before_tail),
+                  contract="""
+        requires pbuf_of(%(DIR)s) == m.dir,%(XR)s
+        ensures r is Ok ==> lists_every(r->Ok_0@, m.entries, %(S)s),  // @C19.%(F)s.%(EL)s
+                r is Ok ==> lists_only(r->Ok_0@, m.entries, %(S)s),  // @C19.%(F)s.%(OL)s
+                r is Ok ==> each_once_of(r->Ok_0@, m.entries, %(S)s),  // @C19.%(F)s.each_once
+                r is Ok ==> sorted_by_path(r->Ok_0@),  // @C19.%(F)s.sorted
+""" % dict(D, DIR=DIR, XR=extra_requires))
+        return B
+
+    with u.mod("misc_helpers", auto_uses=mh):
+        # real body: the text it returns for a path is file_name_text(path) (spec.rs, derived from this body)
+        gfn = mh.item("get_file_name", "fn")
+        if len(gfn["params"]) != 1:
+            raise Undecided("get_file_name: expected one parameter")
+        u.take_fn(mh, "get_file_name", contract="""
+        ensures r@ == file_name_text(pbuf_of(%s)),  // @C19.get_file_name.text_of_the_last_component
+""" % gfn["params"][0]["name"])
+        listing_fn("get_files", "Selection::RegularFiles", "lists_every_regular_file", "lists_only_regular_files")
+        sfit = mh.item("search_files", "fn")
+        if len(sfit["params"]) != 2:
+            raise Undecided("search_files: expected the parameters (dir, pattern)")
+        PAT = sfit["params"][1]["name"]
+        # the local holding the compiled regex (the loop is verified in isolation: what `Regex::new` said about it is carried in)
+        rx = [l for l in sfit["lets"] if l["init"] is not None and re.search(r"\bRegex\s*::\s*new\s*\(", mh.s(*l["init"]))]
+        rxn = [re.match(r"\s*(?:mut\s+)?([A-Za-z_]\w*)", mh.s(*l["pat"])) for l in rx]
+        XI = "".join("\n                    regex_pattern(%s) == %s@," % (m_.group(1), PAT) for m_ in rxn if m_)
+        listing_fn("search_files", "Selection::MatchingRegularFiles(%s@)" % PAT,
+                   "lists_every_matching_regular_file", "lists_only_matching_regular_files", extra_invariants=XI)
